@@ -618,4 +618,101 @@ theorem embLoc_den (n : Int) (hn : 0 ≤ n) (idx : List Int) (hs : idx.Pairwise 
       apply decide_eq_decide.mpr
       constructor <;> intro h <;> omega
 
+/-! ### guest features -/
+
+/-- the residues of a guest feature, translated to the insertion index `i` and then moved by the
+later insertions (all at indices `≤ i`): a translation by the copy's OUTPUT position -/
+theorem guest_remap (n : Int) (hn : 0 ≤ n) (i : Int) (post : List Int)
+    (hs : post.Pairwise (fun a b => b ≤ a)) (hpost : ∀ a ∈ post, a ≤ i) (l : Loc)
+    (hw : wf l = true) (hnn : nonneg l = true) :
+    mapPos (composeIns n post) (mapPos (· + i) (den l)) = mapPos (· + (i + n * post.length)) (den l) := by
+  rw [mapPos_mapPos]
+  apply mapPos_congr
+  intro p hp
+  have h0 := den_nonneg l hw hnn p hp
+  rw [composeIns_eq_multiInsMap n hn post hs,
+    multiInsMap_of_ge post n (p.1 + i) (fun a ha => by have := hpost a ha; omega)]
+  omega
+
+/-- **`gts insert`, guest features**: the features of the copy inserted at `i` denote the guest's
+residues offset by that copy's position in the OUTPUT, `i + n · #later insertions` -/
+theorem guestLoc_den (n : Int) (hn : 0 ≤ n) (i : Int) (hi : 0 ≤ i) (post : List Int)
+    (hs : post.Pairwise (fun a b => b ≤ a)) (hpost : ∀ a ∈ post, a ≤ i) (l : Loc)
+    (hw : wf l = true) (hnn : nonneg l = true) (g1 : expandAbs l 0 i = false)
+    (g2 : insAbs false n post (l.expand 0 i) = false) :
+    den (insLoc false n post (l.expand 0 i)) ≼ mapPos (· + (i + n * post.length)) (den l) := by
+  have h1 := (insLoc_den n hn post (l.expand 0 i) (expand_ins l 0 i hw hi).2).1 g2
+  have h2 := mapPos_refines (composeIns n post) (guest_translate l i hw hnn hi g1)
+  rw [guest_remap n hn i post hs hpost l hw hnn] at h2
+  exact h1.trans h2
+
+/-- **`gts infix`, guest features**: the same, outside the later guest copies -/
+theorem guestLoc_emb_den (n : Int) (hn : 0 ≤ n) (i : Int) (hi : 0 ≤ i) (post : List Int)
+    (hs : post.Pairwise (fun a b => b ≤ a)) (hpost : ∀ a ∈ post, a ≤ i) (l : Loc)
+    (hw : wf l = true) (hnn : nonneg l = true) (g1 : expandAbs l 0 i = false)
+    (g2 : insAbs true n post (l.expand 0 i) = false) :
+    stripGuests (copyStarts n post) n (den (insLoc true n post (l.expand 0 i))) ≼
+      mapPos (· + (i + n * post.length)) (den l) := by
+  have h1 := (embLoc_den n hn post hs (l.expand 0 i) (expand_ins l 0 i hw hi).2).1 g2
+  have h2 := mapPos_refines (composeIns n post) (guest_translate l i hw hnn hi g1)
+  rw [guest_remap n hn i post hs hpost l hw hnn] at h2
+  exact h1.trans h2
+
+/-! ### where the guest copies are in the output residues -/
+
+/-- an insertion at `h ≤ p` moves everything from `p` on right by the guest length -/
+theorem drop_splice (X g : List UInt8) (h p : Nat) (hhp : h ≤ p) (hX : h ≤ X.length) :
+    (Seq.spliceBytes X h g).drop (p + g.length) = X.drop p := by
+  unfold Seq.spliceBytes
+  have hl : (X.take h ++ g).length = h + g.length := by
+    simp only [List.length_append, List.length_take]; omega
+  have e : p + g.length = (X.take h ++ g).length + (p - h) := by rw [hl]; omega
+  rw [e, List.drop_length_add_append, List.drop_drop]
+  congr 1
+  omega
+
+theorem splice_length (X g : List UInt8) (h : Nat) :
+    (Seq.spliceBytes X h g).length = X.length + g.length := by
+  simp only [Seq.spliceBytes, List.length_append, List.length_take, List.length_drop]
+  omega
+
+theorem foldl_splice_drop (post : List Int) (g X : List UInt8) (p : Nat)
+    (h : ∀ a ∈ post, 0 ≤ a ∧ a ≤ (p : Int) ∧ a ≤ (X.length : Int)) :
+    (post.foldl (fun out i => Seq.spliceBytes out i.toNat g) X).drop (p + post.length * g.length) =
+      X.drop p := by
+  induction post generalizing X p with
+  | nil => simp
+  | cons a post ih =>
+    have ha := h a (List.mem_cons_self ..)
+    rw [List.foldl_cons]
+    have e : p + (a :: post).length * g.length = (p + g.length) + post.length * g.length := by
+      rw [List.length_cons, Nat.add_mul, Nat.one_mul]; omega
+    rw [e, ih (Seq.spliceBytes X a.toNat g) (p + g.length) (fun b hb => by
+      have := h b (List.mem_cons_of_mem _ hb)
+      rw [splice_length]
+      omega)]
+    exact drop_splice X g a.toNat p (by omega) (by omega)
+
+/-- **the copy inserted at `i` sits at `i + |g| · #later insertions` in the output**: the
+residues there are the guest's -/
+theorem foldl_splice_copy (pre : List Int) (i : Int) (post : List Int) (g X : List UInt8)
+    (hi : 0 ≤ i ∧ i ≤ (X.length : Int)) (hpost : ∀ a ∈ post, 0 ≤ a ∧ a ≤ i) :
+    (((pre ++ i :: post).foldl (fun out i => Seq.spliceBytes out i.toNat g) X).drop
+      (i.toNat + post.length * g.length)).take g.length = g := by
+  rw [List.foldl_append, List.foldl_cons]
+  have hB : X.length ≤ (pre.foldl (fun out i => Seq.spliceBytes out i.toNat g) X).length := by
+    rw [foldl_splice_length]; omega
+  generalize pre.foldl (fun out i => Seq.spliceBytes out i.toNat g) X = B at hB
+  rw [foldl_splice_drop post g _ i.toNat (fun a ha => by
+    have := hpost a ha
+    rw [splice_length]
+    omega)]
+  unfold Seq.spliceBytes
+  have hl : (B.take i.toNat).length = i.toNat := by
+    simp only [List.length_take]; omega
+  rw [List.append_assoc, List.drop_append_of_le_length (by omega)]
+  have : List.drop i.toNat (List.take i.toNat B) = [] := by
+    apply List.drop_eq_nil_of_le; omega
+  rw [this, List.nil_append, List.take_append_of_le_length (by omega), List.take_length]
+
 end Gts.Cli
